@@ -29,10 +29,19 @@ def plus(anchor, td):
     return r
 
 
+PROVIDER = ["zoneinfo"]
+
+
 def starts(tier):
-    from zoneinfo import ZoneInfo
-    out = [date(2024, 3, 30), datetime(2024, 3, 30, 12), datetime(2024, 3, 30, 12, tzinfo=timezone.utc),
-           datetime(2024, 3, 30, 12, tzinfo=ZoneInfo("Europe/Berlin"))]
+    """zoned starts carry the tzinfo of the active provider: the statement's `+` is the arithmetic of that tzinfo (wall clock for zoneinfo,
+    normalised elapsed time for pytz), which is also what a re-parsed value has"""
+    if PROVIDER[0] == "pytz":
+        import pytz
+        zoned = pytz.timezone("Europe/Berlin").localize(datetime(2024, 3, 30, 12))
+    else:
+        from zoneinfo import ZoneInfo
+        zoned = datetime(2024, 3, 30, 12, tzinfo=ZoneInfo("Europe/Berlin"))
+    out = [date(2024, 3, 30), datetime(2024, 3, 30, 12), datetime(2024, 3, 30, 12, tzinfo=timezone.utc), zoned]
     return out
 
 
@@ -208,6 +217,7 @@ def run(b, tier, seed):
     providers = ["zoneinfo"] if tier == "quick" else ["zoneinfo", "pytz"]
     for prov in providers:
         icalendar.timezone.tzp.use(prov)
+        PROVIDER[0] = prov
         try:
             for cls, start, ef, aspecs in cases(tier):
                 for reparse in (False, True):
@@ -223,6 +233,7 @@ def run(b, tier, seed):
                 fails.setdefault(msg, {"witness": {"missing_info": msg}, "detail": msg})
         finally:
             icalendar.timezone.tzp.use_default()
+            PROVIDER[0] = "zoneinfo"
     b.cases = n
     b.nontrivial = len(distinct)
     b.failures = list(fails.values())
